@@ -1,8 +1,184 @@
 import TRV.Oracle.Util
-/-! Oracle operations: Wrapper (stub, filled in by the module that owns it). -/
-namespace TRV.Oracle.Wrapper
-open TRV.Oracle
+import TRV.Oracle.Engine
+import TRV.Spec.Wrapper
+/-!
+Oracle operations: Wrapper (C10).
 
-def handlers : List (String × Handler) := []
+    wrap.icmp  min max valid mcp plan steps…
+    wrap.udp   min max valid mcp plan steps…
+    wrap.tcp   min max valid mcp plan | out… | out… …             (every window preceded by `|`)
+    wrap.sack  min max valid mcp plan listening addrOk hs steps…
+    wrap.spec  res hit log…                                       (Spec.Atomic on real observations)
+
+* `plan`  = `-` or `op:k:cls,…` with op ∈ dial listen nss filter deadline read write tcpdial and
+            cls ∈ fatal deadline zero
+* `steps` = `s` (send) | `b` (receiver begins ReceiveProbe) | `e:<out>` (its read returns; `<out>` is an
+            engine outcome token `r` `f` `n` `a:ttl:ip:rtt:dest`)
+* `hs`    = `-` or a comma-separated list of `i` (ignored) `d` (done) `n` (no SACK-permitted) `f` `t`
+* answer  = `<res> wire=<ops> log=<events> hit=<faults> spec=<atomic><closeOnce><noUseAfterClose>`
+            with `<res>` = `ok <hops>` or `err inj=<0/1> zero=<0/1> ns=<0/1> cause=<innermost>`
+* `wrap.spec`: `res` = `ok` or `err:<inj>:<zero>`; `hit` as `plan`; `log` = wire operation names
+            (`open filter deadline read write close-source close-sink`); answer = the three spec bits
+-/
+namespace TRV.Oracle.Wrapper
+open TRV TRV.Oracle TRV.Engine TRV.Wrapper TRV.Spec.Wrapper
+
+def parseFOp (s : String) : Option FOp :=
+  if s = "dial" then some .dial else if s = "listen" then some .listen
+  else if s = "nss" then some .newSourceSink else if s = "filter" then some .filter
+  else if s = "deadline" then some .deadline else if s = "read" then some .read
+  else if s = "write" then some .write else if s = "tcpdial" then some .tcpDial else none
+
+def showFOp : FOp → String
+  | .dial => "dial" | .listen => "listen" | .newSourceSink => "nss" | .filter => "filter"
+  | .deadline => "deadline" | .read => "read" | .write => "write" | .tcpDial => "tcpdial"
+
+def parseClass (s : String) : Option Class :=
+  if s = "fatal" then some .fatal else if s = "deadline" then some .deadline
+  else if s = "zero" then some .zero else none
+
+def showClass : Class → String
+  | .fatal => "fatal" | .deadline => "deadline" | .zero => "zero"
+
+def parseFault (s : String) : Option Fault :=
+  match splitOn s ':' with
+  | [o, k, c] => do
+    let o ← parseFOp o
+    let k ← k.toNat?
+    let c ← parseClass c
+    pure { op := o, k := k, cls := c }
+  | _ => none
+
+def parsePlan (s : String) : Option FaultPlan :=
+  if s = "-" then some [] else (splitOn s ',').mapM parseFault
+
+def showFaults (fs : List Fault) : String :=
+  if fs.isEmpty then "-" else ",".intercalate (fs.map fun f => s!"{showFOp f.op}:{f.k}:{showClass f.cls}")
+
+def parseStep (s : String) : Option Step :=
+  if s = "s" then some .send
+  else if s = "b" then some .rbegin
+  else if s.startsWith "e:" then (TRV.Oracle.Engine.parseOut (s.drop 2).toString).map .rend
+  else none
+
+def parseHOut (s : String) : Option HOut :=
+  if s = "i" then some .ignore else if s = "d" then some .done else if s = "n" then some .notSupported
+  else if s = "f" then some .fail else if s = "t" then some .timeout else none
+
+def parseHs (s : String) : Option (List HOut) :=
+  if s = "-" then some [] else (splitOn s ',').mapM parseHOut
+
+def showHandle : Handle → String
+  | .source => "source" | .sink => "sink" | .localConn => "localconn" | .listener => "listener"
+  | .tcpConn => "tcpconn"
+
+def showEv : Ev → String
+  | .open h => "open-" ++ showHandle h
+  | .close h => "close-" ++ showHandle h
+  | .filter => "filter" | .deadline => "deadline" | .read => "read" | .write => "write"
+
+/-- the part of the log the simulated wire sees, in its operation names -/
+def wireOps : CallLog → List String
+  | [] => []
+  | .open .source :: r => "open" :: wireOps r
+  | .close .source :: r => "close-source" :: wireOps r
+  | .close .sink :: r => "close-sink" :: wireOps r
+  | .filter :: r => "filter" :: wireOps r
+  | .deadline :: r => "deadline" :: wireOps r
+  | .read :: r => "read" :: wireOps r
+  | .write :: r => "write" :: wireOps r
+  | _ :: r => wireOps r
+
+def showCause : Cause → String
+  | .injected op k => s!"injected-{showFOp op}-{k}"
+  | .zeroRead => "zero-read" | .handshakeTimeout => "handshake-timeout" | .platform => "platform"
+  | .refused => "refused" | .natural => "natural"
+  | .engine e => "engine-" ++ TRV.Oracle.Engine.showErr e
+  | .toHops => "tohops" | .badParams => "bad-params"
+
+def isInjected : Link → Bool
+  | .cause (.injected _ _) => true
+  | _ => false
+
+def showRes : Except ErrChain Run → String
+  | .ok r => "ok " ++ (if r.hops.isEmpty then "-" else ",".intercalate (r.hops.map TRV.Oracle.Engine.showHop))
+  | .error c =>
+    let inner := match c.getLast? with
+      | some (.cause x) => showCause x
+      | _ => "none"
+    s!"err inj={showBool (c.any isInjected)} zero={showBool (c.contains (.cause .zeroRead))} ns={showBool (c.contains .notSupported)} cause={inner}"
+
+def showList (xs : List String) : String := if xs.isEmpty then "-" else ",".intercalate xs
+
+def showObs (o : Obs) : String :=
+  s!"{showRes o.res} wire={showList (wireOps o.log)} log={showList (o.log.map showEv)} hit={showFaults o.hit} spec={showBool (atomic o)}{showBool (closeOnce o.log)}{showBool (noUseAfterClose o.log)}"
+
+def parseCfg (mn mx v m : String) : Option Cfg := do
+  let mn ← mn.toNat?
+  let mx ← mx.toNat?
+  let v ← parseBool v
+  let m ← parseBool m
+  pure { min := mn, max := mx, validTarget := v, mustClosePort := m }
+
+def par (f : Cfg → FaultPlan → List Step → Obs) : Handler
+  | mn :: mx :: v :: m :: plan :: steps => orBad do
+    let cfg ← parseCfg mn mx v m
+    let plan ← parsePlan plan
+    let steps ← steps.mapM parseStep
+    pure (showObs (f cfg plan steps))
+  | _ => badOp
+
+def tcpH : Handler
+  | mn :: mx :: v :: m :: plan :: rest => orBad do
+    let cfg ← parseCfg mn mx v m
+    let plan ← parsePlan plan
+    let ws ← ((TRV.Oracle.Engine.splitWindows rest).drop 1).mapM (fun w => w.mapM TRV.Oracle.Engine.parseOut)
+    pure (showObs (tcp cfg plan ws))
+  | _ => badOp
+
+def sackH : Handler
+  | mn :: mx :: v :: m :: plan :: li :: ad :: hs :: steps => orBad do
+    let cfg ← parseCfg mn mx v m
+    let plan ← parsePlan plan
+    let li ← parseBool li
+    let ad ← parseBool ad
+    let hs ← parseHs hs
+    let steps ← steps.mapM parseStep
+    pure (showObs (sack cfg plan { listening := li, localAddrOk := ad, hs := hs, sched := steps }))
+  | _ => badOp
+
+def parseWireOp (s : String) : Option (List Ev) :=
+  if s = "open" then some [.open .source, .open .sink]
+  else if s = "filter" then some [.filter] else if s = "deadline" then some [.deadline]
+  else if s = "read" then some [.read] else if s = "write" then some [.write]
+  else if s = "close-source" then some [.close .source] else if s = "close-sink" then some [.close .sink]
+  else none
+
+/-- the chain a real error stands for, as far as the harness can observe it: `errors.Is(err,
+    injected)` and the "returned 0 bytes" class -/
+def obsChain (inj zero : Bool) (hit : List Fault) : ErrChain :=
+  (if inj then (hit.filter (fun f => !(f.op == .read && f.cls == .zero))).map (fun f => Link.cause (.injected f.op f.k)) else [])
+  ++ (if zero then [.cause .zeroRead] else [])
+
+def specH : Handler
+  | res :: hit :: log => orBad do
+    let hit ← parsePlan hit
+    let evs ← log.mapM parseWireOp
+    let lg : CallLog := evs.flatten
+    let r : Except ErrChain Run ←
+      if res = "ok" then some (.ok { hops := [] })
+      else match splitOn res ':' with
+        | ["err", i, z] => do
+          let i ← parseBool i
+          let z ← parseBool z
+          pure (.error (obsChain i z hit))
+        | _ => none
+    let o : Obs := { res := r, log := lg, hit := hit }
+    pure s!"{showBool (atomic o)}{showBool (closeOnce lg)}{showBool (noUseAfterClose lg)}"
+  | _ => badOp
+
+def handlers : List (String × Handler) :=
+  [("wrap.icmp", par icmp), ("wrap.udp", par udp), ("wrap.tcp", tcpH), ("wrap.sack", sackH),
+   ("wrap.spec", specH)]
 
 end TRV.Oracle.Wrapper
